@@ -15,7 +15,7 @@ def run(ctx):
     ctx.rule = ("multi-bunch kick cases (nb 2..3, per-bunch offset fields for the y kick, both directions, it 1..4, all streams): "
                 "slice b of the nb-bunch result of the implementation vs the implementation's single-bunch run on that slice "
                 "(bit-exact) and vs the model. Non-trivial: bunch b>=1 with non-zero data and a non-zero offset field.")
-    coq = vp_coq.full_check("C08", ctx)
+    coq = vp_coq.full_check("C08", ctx, fams=("kick",))
     nk = 60 if ctx.quick() else 1500
     cases = kc.gen_cases(ctx, nk, nbs=(2, 3), sizes=list(range(4, 25)))
     singles = []
